@@ -221,16 +221,18 @@ def r04_2(ctx):
                     want = lambda combo: not (combo[0] == 0 and combo[1] == 0 and not combo[2])
                 else:
                     okidx = s.kinds == ["N", "M", "d"] and s.idx == [Poly.atom(kv), Poly.atom(lv), Poly.atom(jv)] and s.grids == ["integrator_roots"]
-                    names = [kv, lv, jv]
-                    combos = [(k, l, j) for k in (0, 1) for l in (0, 1) for j in (0, 1)]
-                    want = lambda combo: True
+                    # the only point of this grid that include_last can refer to is a collocation time that coincides with tf:
+                    # the last root of the last step of the last interval, when the scheme has a root at 1 (Radau) - D92
+                    names = [kv, lv, jv, "%s['include_last']" % args, "self.tau[-1]", "self.N", "self.M", "self.degree"]
+                    combos = [(k, l, j, inc, tau, 2, 2, 2) for k in (0, 1) for l in (0, 1) for j in (0, 1) for inc in (True, False) for tau in (1, 0.9)]
+                    want = lambda combo: not (not combo[3] and combo[0] == 1 and combo[1] == 1 and combo[2] == 1 and combo[4] == 1)
                 ctx.check(okidx, label + " evaluator", detail="evaluator does not receive the loop's own indices",
                           expected="evaluator of the grid with (k[, i[, j]]) from range(N)[, range(M)[, range(degree)]]",
                           found="%s in loops %s over %s" % (ast.unparse(s.ev), s.kinds, s.grids), fi=f, node=s.call)
                 table, err = skip_table(s, names, combos)
                 ok = table is not None and all(placed == want(combo) for combo, placed in table)
-                ctx.check(ok, label + " domain", detail="instances skipped or kept against include_first",
-                          expected="every index tuple placed, except the very first point when not include_first",
+                ctx.check(ok, label + " domain", detail="instances skipped or kept against include_first / include_last",
+                          expected="every index tuple placed, except the very first point when not include_first (roots: the root at tf when not include_last)",
                           found=err or str([(c2, p) for c2, p in table if p != want(c2)]), fi=f, node=s.call,
                           sample={"names": names, "table": str(table)})
             # scale / meta pass-through of the same tuple (scale itself belongs to C14)
@@ -584,7 +586,7 @@ def subject_to_table(ctx):
             except LayoutUnknown as e:
                 table[(grid, sig)] = "<raise>" if "raise reached" in str(e) else "<unknown: %s>" % str(e)[:60]
     # the options of the declaration are recorded under their own names (the transcription methods look them up by name)
-    opts = {"include_first": "IF", "include_last": "IL", "refine": "RF", "group_refine": "GR", "group_dim": "GD", "group_control": "GC"}
+    opts = {"include_first": Sym("IF"), "include_last": Sym("IL"), "refine": Sym("RF"), "group_refine": Sym("GR"), "group_dim": Sym("GD"), "group_control": Sym("GC")}
     cons = {g: [] for g in GRIDS}
     me = fresh_obj("self", _constraints=cons)
     hooks = {".is_signal": lambda s_, r, a, k, n: True, "._set_transcribed": lambda s_, r, a, k, n: None,
@@ -599,6 +601,27 @@ def subject_to_table(ctx):
             record = {k: v for k, v in cons["control"][0][2].items()}
     except LayoutUnknown as e:
         record = "<unknown: %s>" % str(e)[:80]
+    # include_last="auto" (documented: enforce at tf only when the constraint does not depend on a control) is resolved to a
+    # boolean when the constraint is declared; any other string is rejected
+    auto = {}
+    for dep in (True, False, "bogus"):
+        cons2 = {g: [] for g in GRIDS}
+        me2 = fresh_obj("self", _constraints=cons2, _offsets={}, u=Sym("u"))
+        hooks2 = dict(hooks)
+        hooks2["depends_on"] = lambda s_, r, a, k, n, dep=dep: bool(dep)
+        hooks2["ca.depends_on"] = hooks2["depends_on"]
+        hooks2["symvar"] = lambda s_, r, a, k, n: []
+        hooks2["ca.symvar"] = hooks2["symvar"]
+        hooks2["MX"] = lambda s_, r, a, k, n: a[0] if a else NotImplemented
+        try:
+            sim = Sim(P, hooks=hooks2)
+            sim.self_class = "Stage"
+            sim.call(f, [me2, Sym("constr")], {"grid": "control", "include_last": "auto" if dep != "bogus" else "sometimes"})
+            got = cons2["control"][0][2].get("include_last") if len(cons2["control"]) == 1 else "<not stored>"
+            auto[dep] = got
+        except LayoutUnknown as e:
+            auto[dep] = "<raise>" if "raise reached" in str(e) else "<unknown: %s>" % str(e)[:60]
+    cache["auto"] = auto
     cache["r"] = (f, table, stored)
     cache["record"] = (record, dict(opts, scale="SC", grid="control"))
     return cache["r"]
@@ -635,9 +658,15 @@ def r04_8(ctx):
     record, want_rec = ctx.prog.__dict__["_subject_to_table"]["record"]
     if isinstance(record, str) or record is None:
         raise AnalysisError("Stage.subject_to: the recorded options could not be read from the simulated call: %s" % (record,))
-    wrong = {k: (record.get(k), v) for k, v in want_rec.items() if record.get(k) != v}
+    wrong = {k: (record.get(k), v) for k, v in want_rec.items() if freeze(record.get(k)) != freeze(v)}
     ctx.check(not wrong, "Stage.subject_to records every placement option under its own name", detail="an option of the declaration is stored under another option's name (include_first <-> include_last: the other end point is skipped)",
               expected="args[name] = the argument called name, for %s" % sorted(want_rec), found=str(wrong)[:200], fi=f)
+    auto = ctx.prog.__dict__["_subject_to_table"]["auto"]
+    if any(str(v).startswith("<unknown") for v in auto.values()):
+        raise AnalysisError("Stage.subject_to(include_last='auto') could not be simulated: %s" % auto)
+    ctx.check(auto.get(True) is False and auto.get(False) is True, "Stage.subject_to resolves include_last='auto' when the constraint is declared", detail="the string 'auto' is truthy: every placement site treats it as include_last=True and imposes the constraint at tf with the last interval's control",
+              expected="include_last stored as False when the constraint depends on a control, True otherwise", found=str({("depends on u" if k is True else "no control"): v for k, v in auto.items() if k != "bogus"}), fi=f)
+    ctx.check(auto.get("bogus") == "<raise>", "Stage.subject_to rejects an include_last that is neither a boolean nor 'auto'", detail="any non-empty string behaves like True", expected="raise", found=str(auto.get("bogus")), fi=f)
     bad = {k: (table.get(k), v) for k, v in want.items() if k == ("point", True) and table.get(k) != v}
     ctx.check(not bad, "Stage.subject_to rejects a signal on grid 'point'", detail="signal on point grid accepted", expected="raise", found=str(bad), fi=f)
     bad = {k: (table.get(k), v) for k, v in want.items() if k[1] and k[0] not in (None, "point", "no_such_grid") and table.get(k) != v}
